@@ -328,6 +328,26 @@ func c17MapBatch(a c17Arg, res *TaskResult) {
 		}
 		run(w, keys, fmt.Sprintf("batch map from a %d-entry source (default digester)", n))
 	}
+	// keys colliding on the first level under the DEFAULT (pooled) digester: the bulk constructor takes its
+	// collision branch with digesters from the process-wide pool
+	if a.Shard == 1%a.Shards {
+		for mask := 1; mask < 16; mask++ {
+			for _, extra := range [][]int{nil, {0, 1, 2}} {
+				var keys []int
+				for b := 0; b < 4; b++ {
+					if mask&(1<<b) != 0 {
+						keys = append(keys, 300+b)
+					}
+				}
+				keys = append(keys, extra...)
+				w := NewWorld(a.T)
+				w.KeyOf = KeyOfDefault
+				classes = []string{"t", "s60"}
+				run(w, keys, fmt.Sprintf("batch map from a source with colliding keys %v (default digester)", keys))
+				classes = []string{"t", "limM", "limM+", "mid"}
+			}
+		}
+	}
 	// controlled digests incl. collision groups
 	if a.Shard == 0 {
 		for ai, asg := range DigestAssignments(3) {
